@@ -30,6 +30,12 @@ def dnfMinus (n : Nat) (A Bs : DNF) : DNF := Bs.foldl (minusOne n) (A.filter (fe
 /-- `⋃ A ⊆ ⋃ B` -/
 def dnfSubset (n : Nat) (A B : DNF) : Bool := (dnfMinus n A B).isEmpty
 
+/-- `⋃ A ⊆ ⋃ B`, trying first to place every disjunct of `A` inside a single disjunct of `B` -/
+def dnfSubsetF (n : Nat) (A B : DNF) : Bool :=
+  A.all fun P => B.any (fun Q => subsetB n P Q) || dnfSubset n [P] B
+
+def dnfEquivF (n : Nat) (A B : DNF) : Bool := dnfSubsetF n A B && dnfSubsetF n B A
+
 /-- `⋃ A = ⋃ B` -/
 def dnfEquiv (n : Nat) (A B : DNF) : Bool := dnfSubset n A B && dnfSubset n B A
 
